@@ -930,6 +930,55 @@ def classify_e2e(a, o):
     return " ".join(feats[:2]) + (" +" + "+".join(feats[2:4]) if feats[2:] else "")
 
 
+def impl_resolve_conflict(a):
+    from xsdata.codegen.handlers import ValidateAttributesOverrides
+    from xsdata.utils import collections as xcoll
+
+    def run():
+        target = Class(qname="t", tag=Tag.COMPLEX_TYPE, location="l", attrs=mk_attrs(a["target"]))
+        base = mk_attrs(a["base"])
+        base_map = xcoll.group_by(base, key=lambda x: x.slug)
+        ValidateAttributesOverrides.validate_attrs(target, base_map)
+        return [[x.name for x in target.attrs], [x.name for x in base]]
+
+    return _guard(run)
+
+
+def gen_resolve_conflict(rng, tier):
+    """one child attr that clashes with a parent attr of the other xml kind (element vs attribute: not an
+    override), among other attrs of the class and of the parents that clash with nothing"""
+    def at(tag, name, ns=None):
+        return {"tag": tag, "name": name, "ns": ns}
+
+    yield {"target": [at("Element", "a")], "base": [at("Attribute", "a_Attribute"), at("Attribute", "A")], "child": 0}
+    yield {"target": [at("Attribute", "a"), at("Element", "a_Attribute")], "base": [at("Element", "A")], "child": 0}
+    yield {"target": [at("Element", "x"), at("Element", "a", "urn:x")], "base": [at("Attribute", "A")], "child": 1}
+    stems = ["a", "b", "x1", "value"]
+    for _ in range(300 if tier == "quick" else 6000):
+        stem = rng.choice(stems)
+        ctag, ptag = rng.choice([("Element", "Attribute"), ("Attribute", "Element")])
+        child = at(ctag, rng.choice([stem, stem.upper(), stem + "_"]), rng.choice([None, None, "urn:x"]))
+        parent = at(ptag, rng.choice([stem, stem.capitalize(), "_" + stem]), rng.choice([None, None, "urn:y"]))
+        # bystanders: names that look like what the rename produces, with slugs that clash with no other attr
+        taken = {own_slug(child["name"])}
+        def extra(pool, n):
+            out = []
+            for nm in rng.sample(pool, n):
+                if own_slug(nm) not in taken:
+                    taken.add(own_slug(nm))
+                    out.append(at(rng.choice(["Element", "Attribute"]), nm))
+            return out
+        pool = [f"{stem}_Attribute", f"{stem}_Element", f"{stem}_attribute_1", f"{stem}Attribute", f"{stem}_Element_1",
+                f"x_{stem}", f"y_{stem}", f"{stem}_Attribute_2", "zz", "other"]
+        t_others = extra(pool, rng.randint(0, 3))
+        b_others = extra(pool, rng.randint(0, 3))
+        target = t_others + [child]
+        rng.shuffle(target)
+        base = b_others + [parent]
+        rng.shuffle(base)
+        yield {"target": target, "base": base, "child": target.index(child)}
+
+
 
 def classify_safe(a, out):
     if "err" in out:
@@ -985,6 +1034,11 @@ CORRS = [
          classify=classify_circular, nontrivial=lambda a, o: len(a["order"]) > 1),
     Corr("names.is_circular", gen_is_circular, impl_is_circular,
          describe="DetectCircularReferences.is_circular(start, stop)", classify=classify_circular),
+    Corr("names.resolve_conflict", gen_resolve_conflict, impl_resolve_conflict,
+         describe="ValidateAttributesOverrides.validate_attrs: a child attr clashing with a parent attr of the other xml kind",
+         classify=lambda a, o: "err" if "err" in o else (
+             ("child" if o["ok"][0] != [x["name"] for x in a["target"]] else "parent") + " renamed" +
+             (" +index" if any(re.search(r"_\d+$", n) and n not in [x["name"] for x in a["target"] + a["base"]] for n in o["ok"][0] + o["ok"][1]) else ""))),
     Corr("names.rename_inners", gen_rename_inners, impl_rename_inners, nontrivial=lambda a, o: len(a["names"]) > 1,
          describe="VacuumInnerClasses.rename_duplicate_inners: names of the inner classes of one class",
          classify=lambda a, o: "err" if "err" in o else ("renamed" if o["ok"] != a["names"] else "unchanged")),
